@@ -43,5 +43,19 @@ Proof. exact cells_count. Qed.
 Theorem C04_clone_copies_each_cell_once : forall s, Inv s -> clone_storage s = Some s.
 Proof. exact clone_storage_spec. Qed.
 
+(* ---------------------------------------------------------------- run level *)
+From Gecs Require Import Query World Borrow Run WorldInv RunCells.
+
+(** Whole histories: in every state reached by any history of the run language (including the states
+    left behind by panicking operations and armed Clone/Drop faults), every storage of every live
+    world holds exactly one initialised cell per (live entity, column) - nothing was dropped while
+    its entity is alive, nothing is kept for an entity that is gone -, dropping that world drops
+    exactly these cells, each once, and cloning it copies each exactly once. *)
+Theorem C04_every_reachable_world_owns_one_cell_per_entity_and_column : forall cfg d qs ops, wf_case d ops = true ->
+  exists sts, run_states cfg d qs rs0 ops = Some sts /\ length sts = length ops /\
+    Forall (fun st => forall w s, Some w ∈ worlds st -> s ∈ w ->
+              Forall (fun c => length c = len s) (cols s) /\ drop_cells s = Some (cols s) /\ clone_storage s = Some s) sts.
+Proof. exact run_cells. Qed.
+
 Example C04_nonvacuous : drop_cells ex4 = Some [[30; 20]; [31; 21]]%N.
 Proof. vm_compute. reflexivity. Qed.
